@@ -247,7 +247,7 @@ def run(ctx):
         env["VERIF_REPLAY"] = os.path.abspath(ctx.replay)
     else:
         env["VERIF_CORPUS"] = os.path.join(os.path.dirname(os.path.dirname(os.path.abspath(__file__))), "harness", "corpus", "C12")
-        env["VERIF_CASES"] = 12000 if ctx.thorough else 1500
+        env["VERIF_CASES"] = 40000 if ctx.thorough else 5000
     rc, log, out = ctx.run_harness(binary, "TestVerifC12", env, timeout=3000)
     if rc != 0:
         ctx.oblige("harness-runs", False, log[-1500:])
